@@ -733,7 +733,7 @@ void OutputManager::print_value(const ASTNode *expr) {
                 } else {
                     int64_t value =
                         interpreter_->get_struct_member_array_element(
-                            obj_name, member_name, static_cast<int>(index));
+                            obj_name, member_name, Variable::index_to_int(index));
                     io_interface_->write_number(value);
                 }
             } else {
